@@ -1,18 +1,130 @@
-(* Props/C03.v -- property theorems only.  Each is closed by `exact <lemma>` and followed by Print Assumptions. *)
-From Coq Require Import List Reals ZArith.
-From PG Require Import Base.Ops Base.Vec Model.BSpline Proofs.C03Scale.
+(* Props/C03.v -- property theorems only.  Each is closed by `exact <lemma>` and followed by Print Assumptions.
+   All statements are about the real instance of coq/Model/BSpline.v (bspline_row / bspline_scaled = one row of
+   pygam.utils.b_spline_basis; None = the code raises).  vsum = row sum, scaled_x = (x - min ek)/(max ek - min ek)
+   with the code's replacement of a zero scale by 1.  Examples showing that the hypotheses are satisfiable are in
+   Proofs/C03Transfer.v (ex_inside, ex_extrap_left, ex_extrap_right, ex_periodic, ex_edge_knots).               *)
+From Coq Require Import List Reals ZArith QArith Qreals.
+From PG Require Import Base.Ops Base.Vec Model.BSpline Proofs.C03Basis Proofs.C03Scale Proofs.C03Row
+  Proofs.C03Periodic Proofs.C03Transfer.
 Import ListNotations.
 Open Scope R_scope.
 
+(* Cox-de Boor recursion over ANY strictly increasing knot sequence t, any order k, for the polynomial piece j0
+   (t j0 <= x <= t (j0+1)): non-negative, supported on i in [j0-k, j0], sums to one. *)
+Theorem C03_general_knots_nonneg : forall t : nat -> R, (forall i, t i < t (S i)) -> forall x j0, t j0 <= x <= t (S j0) ->
+  forall k i, 0 <= Bix Rfops t (ind j0) x k i.
+Proof. exact inonneg. Qed.
+Print Assumptions C03_general_knots_nonneg.
+Theorem C03_general_knots_support : forall t : nat -> R, (forall i, t i < t (S i)) -> forall x j0 k i,
+  ~ (i <= j0 <= i + k)%nat -> Bix Rfops t (ind j0) x k i = 0.
+Proof. exact isupport. Qed.
+Print Assumptions C03_general_knots_support.
+Theorem C03_general_knots_partition_of_unity : forall t : nat -> R, (forall i, t i < t (S i)) -> forall x j0 k a len,
+  (a + k <= j0 <= a + k + len)%nat -> vsum Rrops (map (Bix Rfops t (ind j0) x k) (seq a (k + S len))) = 1.
+Proof. exact partition_of_unity. Qed.
+Print Assumptions C03_general_knots_partition_of_unity.
+(* the vectorised list recursion of the code computes exactly that index function *)
+Theorem C03_recursion_is_cox_de_boor : forall t h x k m,
+  deboor Rfops t x k (map h (seq 0 (m + k))) = map (Bix Rfops t h x k) (seq 0 m).
+Proof. exact deboor_Bix. Qed.
+Print Assumptions C03_recursion_is_cox_de_boor.
+
+(* inside the knot range (scaled position in [0,1], both ends included), non-periodic, every order k and size n:
+   n entries, non-negative, summing to one, at most k+1 consecutive non-zero *)
+Theorem C03_inside_nonneg_sum_support : forall n k xs row, 0 <= xs <= 1 ->
+  bspline_scaled Rfops n k false xs = Some row ->
+  length row = n /\ Forall (fun v => 0 <= v) row /\ vsum Rrops row = 1 /\
+  (exists j, forall i, (i < j \/ j + k < i)%nat -> nth i row 0 = 0).
+Proof. exact inside_row. Qed.
+Print Assumptions C03_inside_nonneg_sum_support.
+Theorem C03_inside_means_between_edge_knots : forall ek0 ek1 x, ek0 <> ek1 -> Rmin ek0 ek1 <= x <= Rmax ek0 ek1 ->
+  0 <= scaled_x Rfops ek0 ek1 x <= 1.
+Proof. exact scaled_x_inside. Qed.
+Print Assumptions C03_inside_means_between_edge_knots.
+
+(* outside the range, order >= 1: rows still sum to one *)
+Theorem C03_extrap_rowsum : forall n k xs row, (1 <= k)%nat -> xs < 0 \/ 1 < xs ->
+  bspline_scaled Rfops n k false xs = Some row -> length row = n /\ vsum Rrops row = 1.
+Proof. exact extrap_rowsum. Qed.
+Print Assumptions C03_extrap_rowsum.
+(* ... the continuation is affine in x, takes the value of the interior basis at the boundary (continuity), and its
+   slopes sum to zero *)
+Theorem C03_extrap_linear_continuous : forall n k, (1 <= k < n)%nat ->
+  exists g0 g1 b0 b1,
+    bspline_scaled Rfops n k false 0 = Some b0 /\ bspline_scaled Rfops n k false 1 = Some b1 /\
+    length g0 = n /\ length g1 = n /\ length b0 = n /\ length b1 = n /\ vsum Rrops g0 = 0 /\ vsum Rrops g1 = 0 /\
+    (forall xs, xs < 0 -> bspline_scaled Rfops n k false xs = Some (vadd Rrops (vscale Rrops xs g0) b0)) /\
+    (forall xs, 1 < xs -> bspline_scaled Rfops n k false xs = Some (vadd Rrops (vscale Rrops (xs - 1) g1) b1)).
+Proof. exact extrap_linear_continuous. Qed.
+Print Assumptions C03_extrap_linear_continuous.
+(* _partial (stretch goal of DESIGN section 7 not proved): that the slopes g0, g1 equal the one-sided derivatives of the
+   interior polynomial pieces at the boundary (B-spline derivative formula).  It is probed numerically by the harness. *)
+
+(* periodic basis: wherever the code returns a row, it has n non-negative entries summing to one (every order, size, x) *)
+Theorem C03_periodic_rows_sum_to_one : forall n k xs0 row, bspline_scaled Rfops n k true xs0 = Some row ->
+  length row = n /\ Forall (fun v => 0 <= v) row /\ vsum Rrops row = 1.
+Proof. exact periodic_row. Qed.
+Print Assumptions C03_periodic_rows_sum_to_one.
+(* _partial: not proved for the periodic basis: the (cyclic) support-width statement. *)
+
+(* S10: the periodic basis of order >= 1 is undefined (the code raises) exactly on the gap (1, 1+1e-9) of the wrapped
+   axis, so "for every x" is false of the code. *)
+Theorem C03_periodic_defined_everywhere_refuted : exists n k xs0, (1 <= k < n)%nat /\ bspline_scaled Rfops n k true xs0 = None.
+Proof. exact periodic_gap_refuted. Qed.
+Print Assumptions C03_periodic_defined_everywhere_refuted.
+Theorem C03_periodic_undefined_exactly_on_gap : forall n k xs0, (1 <= k < n)%nat ->
+  (bspline_scaled Rfops n k true xs0 = None <-> 1 < fmod Rfops xs0 (1 + / 1000000000)).
+Proof. exact periodic_defined_iff. Qed.
+Print Assumptions C03_periodic_undefined_exactly_on_gap.
+Theorem C03_periodic_gap_witness : bspline_row Rfops 0 1 6 3 true (Q2R (20000000001 # 20000000000)) = None.
+Proof. exact periodic_gap_witness. Qed.
+Print Assumptions C03_periodic_gap_witness.
+
+(* period.  _partial: the exact period of the code is (1+1e-9) * knot range (the code wraps with x % (1+1e-9));
+   "period = knot range" holds only up to that relative 1e-9 and is refuted as an exact statement below.  No Lipschitz
+   bound |basis(x + range) - basis(x)| <= c * 1e-9 is proved; the harness probes it on the implementation. *)
+Theorem C03_periodic_period_partial : forall ek0 ek1 n k x (m : Z), ek0 <> ek1 ->
+  bspline_row Rfops ek0 ek1 n k true (x + IZR m * (1 + / 1000000000) * (Rmax ek0 ek1 - Rmin ek0 ek1))
+  = bspline_row Rfops ek0 ek1 n k true x.
+Proof. exact bspline_row_period. Qed.
+Print Assumptions C03_periodic_period_partial.
+Theorem C03_periodic_period_knot_range_refuted : exists ek0 ek1 n k x, ek0 <> ek1 /\ (k < n)%nat /\
+  bspline_row Rfops ek0 ek1 n k true (x + (Rmax ek0 ek1 - Rmin ek0 ek1)) <> bspline_row Rfops ek0 ek1 n k true x.
+Proof. exact period_knot_range_refuted. Qed.
+Print Assumptions C03_periodic_period_knot_range_refuted.
+
 (* the basis depends on x only through its position relative to the edge knots.
    _partial: requires distinct edge knots.  For equal knots the code replaces the scale 0 by 1, so the basis is then
-   invariant under translations (C03_translation_invariance, all knots) but not under rescaling. *)
+   invariant under translations (C03_translation_invariance, all knots) but not under rescaling (refuted below). *)
 Theorem C03_affine_invariance_partial : forall a b ek0 ek1 n k periodic x, 0 < a -> ek0 <> ek1 ->
   bspline_row Rfops (a * ek0 + b) (a * ek1 + b) n k periodic (a * x + b) = bspline_row Rfops ek0 ek1 n k periodic x.
 Proof. exact bspline_row_affine. Qed.
 Print Assumptions C03_affine_invariance_partial.
-
 Theorem C03_translation_invariance : forall b ek0 ek1 n k periodic x,
   bspline_row Rfops (ek0 + b) (ek1 + b) n k periodic (x + b) = bspline_row Rfops ek0 ek1 n k periodic x.
 Proof. exact bspline_row_translate. Qed.
 Print Assumptions C03_translation_invariance.
+Theorem C03_affine_invariance_equal_knots_refuted : exists a b e x n k, 0 < a /\ (k < n)%nat /\
+  bspline_row Rfops (a * e + b) (a * e + b) n k false (a * x + b) <> bspline_row Rfops e e n k false x.
+Proof. exact affine_degenerate_refuted. Qed.
+Print Assumptions C03_affine_invariance_equal_knots_refuted.
+Theorem C03_edge_knot_order_irrelevant : forall ek0 ek1 x, scaled_x Rfops ek1 ek0 x = scaled_x Rfops ek0 ek1 x.
+Proof. exact scaled_x_sym. Qed.
+Print Assumptions C03_edge_knot_order_irrelevant.
+
+(* default edge knots = (min, max) of the column (widened by 1/2 for categorical data) *)
+Theorem C03_edge_knots_min_max : forall col lo hi, gen_edge_knots Rfops false col = Some (lo, hi) ->
+  In lo col /\ In hi col /\ Forall (fun v => lo <= v <= hi) col.
+Proof. exact gen_edge_knots_min_max. Qed.
+Print Assumptions C03_edge_knots_min_max.
+Theorem C03_edge_knots_categorical : forall col lo hi, gen_edge_knots Rfops true col = Some (lo, hi) ->
+  In (lo + / 2) col /\ In (hi - / 2) col /\ Forall (fun v => lo + / 2 <= v <= hi - / 2) col.
+Proof. exact gen_edge_knots_categorical. Qed.
+Print Assumptions C03_edge_knots_categorical.
+
+(* the rational instance evaluated by the correspondence check denotes the real instance the theorems are about *)
+Theorem C03_model_transfer : forall (ek0 ek1 : Q) n k periodic (x : Q),
+  bspline_row Rfops (Q2R ek0) (Q2R ek1) n k periodic (Q2R x) =
+  option_map (map Q2R) (bspline_row Qfops ek0 ek1 n k periodic x).
+Proof. exact bspline_row_Q2R. Qed.
+Print Assumptions C03_model_transfer.
